@@ -342,7 +342,7 @@ func (s *Session) enterBlock(fr *Frame, b *ssa.BasicBlock) *State {
 				}
 			}
 			lim := s.valueOf(fr, cmp.Y).T0()
-			s.assume(Imp(st.Reach, And(Le(I(-1), fr.vals[ph].T0()), Lt(fr.vals[ph].T0(), Ite(Gt(lim, I(0)), lim, I(1))))))
+			s.assume(Imp(st.Reach, And(Le(I(-1), fr.vals[ph].T0()), Lt(fr.vals[ph].T0(), Ite(Gt(lim, I(0)), lim, I(0))))))
 		}
 	}
 	for _, inv := range invs {
